@@ -104,3 +104,24 @@ def count_verdicts(recs, verdicts):
             k = "%s/%s" % (v[0], v[2])
             d[k] = d.get(k, 0) + 1
     return dict(total=tot, not_ok=per)
+
+
+def note_never_judged(ctx, recs, verdicts):
+    """functions/pairs for which EVERY record was skipped: the clause is vacuous for them in
+    this run (e.g. a routine that raises on every call) - said aloud and kept in the evidence"""
+    judged, allfn = set(), set()
+    for r, v in zip(recs, verdicts):
+        allfn.add(r.get("fn", "?"))
+        if not v[0].startswith("skip:"):
+            judged.add(r.get("fn", "?"))
+    never = sorted(allfn - judged)
+    why = {}
+    for r, v in zip(recs, verdicts):
+        if r.get("fn") in never:
+            k = "%s (%s)" % (v[0], r.get("raised1", r.get("raised", "")))
+            why.setdefault(r["fn"], {}).setdefault(k, 0)
+            why[r["fn"]][k] += 1
+    for fn in never:
+        core.log("NOTE property=%s: %s was never judged (every record skipped: %s)" % (ctx.pid, fn, why[fn]))
+    ctx.extra["never_judged"] = why
+    return never
